@@ -6,7 +6,7 @@ git -C /repo worktree add --detach $WT HEAD >/dev/null 2>&1 || exit 3
 trap "git -C /repo worktree remove --force $WT >/dev/null 2>&1; rm -rf $WT" EXIT
 git -C $WT apply "$1" || { echo "patch does not apply"; exit 3; }
 if [ $# -ge 3 ]; then
-  /verif/bin/sfcheck check -prop $2 -rule $3 -tier quick -no-evidence -repo $WT 2>&1 | grep -v "^COUNT" | cut -c1-600 | tail -8
+  ${SFCHECK_BIN:-/verif/bin/sfcheck} check -prop $2 -rule $3 -tier quick -no-evidence -repo $WT 2>&1 | grep -v "^COUNT" | cut -c1-600 | tail -8
 else
-  /verif/bin/sfcheck check -prop $2 -tier quick -no-evidence -repo $WT 2>&1 | grep -v "^COUNT" | cut -c1-600 | tail -8
+  ${SFCHECK_BIN:-/verif/bin/sfcheck} check -prop $2 -tier quick -no-evidence -repo $WT 2>&1 | grep -v "^COUNT" | cut -c1-600 | tail -8
 fi
